@@ -16,6 +16,9 @@ if pats:
     items = [i for i in items if any(s in i[0] for s in pats)]
 results, missed = {}, []
 ALSO = {"seeded/C16-Q": ["C19"], "seeded/C09-I": ["C15"]}   # changes that another property's check reports (see their meta.json)
+# changes whose effect a later repair of /repo absorbs (the tool now refuses where it used to lose information): judged
+# on the revision they were written against
+ON_BASE = {"seeded/C09-H": "4007428"}
 NOT_CLAIMED = {"seeded/C17-N"}                            # outside every statement on purpose (DESIGN 10.4)
 
 
@@ -36,6 +39,8 @@ def base_signatures(commit, pr):
 
 def one(item):
     name, prop, patch, rev, base_commit = item
+    if name in ON_BASE:
+        rev, base_commit = ON_BASE[name], None
     t0 = time.time()
     props = (prop if isinstance(prop, list) else [prop]) + ALSO.get(name, [])
     caught_by, sigs, used = [], [], rev
@@ -49,7 +54,7 @@ def one(item):
             used = attempt_rev
             break
         s = re.findall(r"^violation: (.+)$", r.stdout, re.M)
-        if used != rev:
+        if used != rev or name in ON_BASE:
             # an older base may violate the property by itself (that is why it was repaired): only what the change adds counts
             s = [x for x in s if x not in base_signatures(used, pr)]
         if "VIOLATION property=" in r.stdout and s:
